@@ -103,6 +103,9 @@ def mk0(rng, quick):
         elif r < 0.95:
             j = rng.choice(joins)
             ops.append({"op": "delete", "table": j["name"], "key": j["_keyt"]()})
+        elif r < 0.97:     # the same source object registered once more: nothing changes (updates applied so far stay)
+            j = rng.choice(joins)
+            ops.append({"op": "reregsrc", "table": j["name"]})
         else:       # the table registered again under its name: the new contents replace the old ones for every later row
             j = rng.choice(joins)
             trows = []
@@ -126,7 +129,7 @@ def run(tier):
     conc = []
     while len(conc) < (400 if quick else 20000):
         sc = mk(rng, quick)
-        if "where" in sc["meta"] or not any(o["op"] in ("upsert", "delete") for o in sc["ops"]) or any(o["op"] == "register" for o in sc["ops"]):
+        if "where" in sc["meta"] or not any(o["op"] in ("upsert", "delete") for o in sc["ops"]) or any(o["op"] in ("register", "reregsrc") for o in sc["ops"]):
             continue
         extra = mk(rng, quick)      # more rows and updates of the same shape: longer overlap
         for o in sc["ops"]:
